@@ -2,6 +2,7 @@ package main
 
 import (
 	"fmt"
+	"go/constant"
 	"go/token"
 	"go/types"
 	"sort"
@@ -381,6 +382,7 @@ func runC08(c *Ctx) {
 	decodeLoop(c, "C08", c.P.Func("", "report"), "invoke:lib.Report.Add")
 	decodeLoop(c, "C08", c.P.Func("", "plotRun"), "(*lib/plot.Plot).Add")
 	c08EncodingTable(c)
+	c08OutputTruncated(c)
 	gobDirect(c)
 	// a transcoding chain reproduces the sequence only if each codec pair agrees field by field
 	// and the line decoders hand whole, unaliased records to the parser (shared with C07/C09)
@@ -663,6 +665,61 @@ func c08DecoderFilesIn(c *Ctx) {
 	c.Pass(key, rule, "one decoder per file; nil → error", c.at(df), c.at(appendDec))
 }
 
+// c08OutputTruncated: `encode -output FILE` (and every other command's -output) replaces the file:
+// it is created with os.Create, or opened with O_TRUNC. Without truncation a shorter stream written
+// over a longer file keeps the old tail, which decodes as garbage or extra records.
+func c08OutputTruncated(c *Ctx) {
+	const rule = "output files are opened with os.Create or os.OpenFile(…|O_CREATE|O_TRUNC…): what a command writes is the whole content of its output file"
+	fn := c.P.Func("", "file")
+	key := "output-truncated:main.file"
+	if fn == nil {
+		c.Undecided(key, rule, "main.file not found")
+		return
+	}
+	c.Saw("function " + shortFn(fn))
+	trunc := int64(-1)
+	if osPkg := c.P.SSA.ImportedPackage("os"); osPkg != nil {
+		if k, ok := osPkg.Members["O_TRUNC"].(*ssa.NamedConst); ok {
+			if v, isInt := constant.Int64Val(k.Value.Value); isInt {
+				trunc = v
+			}
+		}
+	}
+	nCreate, nOpenFile := 0, 0
+	var bad []ssa.Instruction
+	eachInstr(fn, func(i ssa.Instruction) {
+		call, ok := i.(*ssa.Call)
+		if !ok {
+			return
+		}
+		switch callName(&call.Call) {
+		case "os.Create":
+			nCreate++
+		case "os.OpenFile":
+			flags, isK := constInt(call.Call.Args[1])
+			if !isK || trunc < 0 {
+				bad = append(bad, call)
+				return
+			}
+			writable := flags&3 != 0 // O_WRONLY or O_RDWR
+			if writable {
+				nOpenFile++
+				if flags&trunc == 0 {
+					bad = append(bad, call)
+				}
+			}
+		}
+	})
+	switch {
+	case len(bad) > 0:
+		c.Fail(key, rule, "an output file is opened for writing without O_TRUNC: a shorter result stream written over an existing longer file keeps the old tail", c.ats(bad)...)
+	case nCreate+nOpenFile == 0:
+		c.Undecided(key, rule, "main.file neither calls os.Create nor os.OpenFile for writing", c.fnAt(fn))
+	default:
+		c.Pass(key, rule, fmt.Sprintf("%d os.Create, %d truncating os.OpenFile", nCreate, nOpenFile), c.fnAt(fn))
+	}
+}
+
 func c08EncodingTable(c *Ctx) {
 	const rule = "encode -to: \"csv\"→NewCSVEncoder, \"gob\"→NewEncoder, \"json\"→NewJSONEncoder, anything else → error"
 	fn := c.P.Func("", "encode")
@@ -811,6 +868,7 @@ func runC09(c *Ctx) {
 	c09JSONEncoder(c)
 	gobDirect(c)
 	c09JSONDecoder(c)
+	c08DecoderFor(c) // the commands reach every decoder through DecoderFor: what it replays is what gets decoded
 	decodeLoop(c, "C09", c.P.Func("", "encode"), "(lib.Encoder).Encode")
 	decodeLoop(c, "C09", c.P.Func("", "report"), "invoke:lib.Report.Add")
 	decodeLoop(c, "C09", c.P.Func("", "plotRun"), "(*lib/plot.Plot).Add")
@@ -961,6 +1019,13 @@ func c09JSONDecoder(c *Ctx) {
 	}
 	ok := len(reads) == 1
 	why := fmt.Sprintf("%d bufio.Reader calls (a helper with several read strategies is not a recognised shape)", len(reads))
+	if len(reads) == 0 {
+		for _, f := range inPackageCallees([]*ssa.Function{fn}) {
+			if len(callsNamed(f, "(*bufio.Scanner).Scan")) > 0 {
+				why = "lines are framed with bufio.Scanner: it refuses lines above its token limit (64 KiB unless raised; records with large bodies are lost together with everything after them) and hands out an unterminated last line as if it were complete"
+			}
+		}
+	}
 	if ok {
 		rd := reads[0]
 		n := callName(&rd.Call)
@@ -1006,6 +1071,10 @@ func c09JSONDecoder(c *Ctx) {
 func runC13(c *Ctx) {
 	c13RoundRobin(c)
 	c08DecoderFiles(c)
+	// "every record of every input, whatever their lengths and encodings": the per-format decoders
+	// must read whole records of any size and detection must not depend on a fixed window
+	c09JSONDecoder(c)
+	c08DecoderFor(c)
 	decodeLoop(c, "C13", c.P.Func("", "encode"), "(lib.Encoder).Encode")
 	decodeLoop(c, "C13", c.P.Func("", "report"), "invoke:lib.Report.Add")
 	decodeLoop(c, "C13", c.P.Func("", "plotRun"), "(*lib/plot.Plot).Add")
